@@ -135,6 +135,9 @@ def valid(case):
             if full:
                 return False
             b.connect()
+        elif c == "L":
+            if full:
+                return False
         elif c[0] == "F":
             if full or b.revoked:
                 return False
@@ -212,6 +215,8 @@ def classify(case, model):
         feats.append("revoke@%d" % t[2:].index("r"))
     if any(c[0] == "f" for c in t[2:]):
         feats.append("accept-error")
+    if "L" in t[2:]:
+        feats.append("stalled-logger")
     if any(c[0] == "F" for c in t[2:]):
         feats.append("revoke-during-accept-errors")
     if any(c[0] in "pu" for c in t[2:]):
